@@ -121,6 +121,12 @@ Window(Rr, first, n) == GetTheta(Rr, first, n, 2, 2)
 NWin(Rr) == IF Inf(Rr) THEN (IF NL(Rr) <= 2 THEN 2 * NL(Rr) ELSE NL(Rr) + 1) ELSE NL(Rr)
 Contract(Rr) == Window(Rr, 0, NWin(Rr))
 
+\* no stored tensor carries a total charge with respect to the bond charges qb (then the charge of a bond index counts
+\* the particles to its left, the precondition of reading Jordan-Wigner signs off the bond charges)
+ZeroQtotal(Rr) ==
+    \A i \in 1..NL(Rr) : \A x \in 1..Len(Rr.B[i]), a \in 1..Len(Rr.B[i][1]), b \in 1..Len(Rr.B[i][1][1]) :
+        ~GIsZero(Rr.B[i][x][a][b]) => QNorm(Rr.qb[i][a] + QSite(Rr.kinds[i], Rr.cons)[x] - Rr.qb[i + 1][b], Rr.cons) = 0
+
 AllDivisible(Rr) ==
     \A i \in 0..(NL(Rr) - 1) : \A tL \in {0, 1, 2}, tR \in {0, 1, 2} : GetBnuDivisible(Rr, i, tL, tR)
 
@@ -281,7 +287,12 @@ ProductRep(bc, kinds, cons, f, vecs) ==
     LET n == Len(kinds) IN
     [known |-> TRUE, bc |-> bc, kinds |-> kinds, cons |-> cons, form |-> [i \in 1..n |-> f],
      S |-> [b \in 1..(IF bc = "infinite" THEN n ELSE n + 1) |-> <<0>>],
-     qb |-> [b \in 1..(n + 1) |-> <<0>>],      \* bond charges of a product state are not compared
+     \* bond charges: left of site 1 zero (chargeL), then accumulated over the occupied basis states
+     qb |-> IF cons = "none" THEN [b \in 1..(n + 1) |-> <<0>>]
+            ELSE LET occ(i) == CHOOSE x \in 1..Dim(kinds[i]) : ~GIsZero(vecs[i][x])
+                     RECURSIVE Acc(_)
+                     Acc(b) == IF b = 1 THEN 0 ELSE QNorm(Acc(b - 1) + QSite(kinds[b - 1], cons)[occ(b - 1)], cons)
+                 IN [b \in 1..(n + 1) |-> <<Acc(b)>>],
      B |-> [i \in 1..n |-> [s \in 1..Dim(kinds[i]) |-> << <<vecs[i][s]>> >>]]]
 Product(bc, n, kp, cn, f, v, how) ==
     /\ phase = "init" /\ "product" \in Ctors
